@@ -114,7 +114,7 @@ def gen(rng, tier):
                 pad = form_of(rng, p, 2)
             else:
                 pad = form_of(rng, p, 2)
-        c = {"kind": kind, "ndim": ndim, "n": n, "p": p, "d": d, "k": k, "s": s, "reassign": rng.random() < 0.25, "subclass": rng.random() < 0.15, "loop": rng.random() < 0.2,
+        c = {"kind": kind, "ndim": ndim, "n": n, "p": p, "d": d, "k": k, "s": s, "reassign": rng.random() < 0.25, "subclass": rng.random() < 0.15, "loop": rng.random() < 0.2, "branch": rng.choice([0, 0, 0, 1, 2]),
              "input": seq_form(rng, n) if ndim == 2 else form_of(rng, n, 1) if kind == "util" else {"f": rng.choice(["int", "npint"]), "v": n, "dt": "int64"},
              "padding": pad, "dilation": form_of(rng, d, ndim), "stride": form_of(rng, s, ndim),
              "kernel": form_of(rng, k, ndim), "cin": rng.choice([1, 2, 3]), "cout": rng.choice([1, 2, 4]),
@@ -182,7 +182,7 @@ def run(c):
     exp = expected(c)
     forms = tuple(x if isinstance(x, str) else (x["f"], x.get("dt")) for x in
                   (c["input"], c["padding"], c["dilation"], c["stride"], c["kernel"]))
-    sig = (c["kind"], tuple(c["n"]), tuple(c["p"]), tuple(c["d"]), tuple(c["k"]), tuple(c["s"]), forms, c["pool"], c.get("stale"), bool(c.get("reassign")) and c["kind"] == "infer_conv", bool(c.get("subclass")), bool(c.get("loop")))
+    sig = (c["kind"], tuple(c["n"]), tuple(c["p"]), tuple(c["d"]), tuple(c["k"]), tuple(c["s"]), forms, c["pool"], c.get("stale"), bool(c.get("reassign")) and c["kind"] == "infer_conv", bool(c.get("subclass")), bool(c.get("loop")), c.get("branch", 0))
     nontriv = (c["ndim"] == 2 and c["k"][0] != c["k"][1]) or any(x != 1 for x in c["s"] + c["d"]) or any(c["p"]) \
         or any(f[0] not in ("int",) for f in forms if not isinstance(f, str))
     fail = None
@@ -237,6 +237,17 @@ def run(c):
             r["nodes"]["rec"] = {"k": "Scale", "args": {"scale": np.ones(sh, dtype="float32")}}
             r["nodes"]["relay"] = {"k": "Threshold", "args": {"threshold": np.ones(sh, dtype="float32")}}
             r["edges"] = [("in", "rec"), ("rec", "rec"), ("rec", "relay"), ("relay", "rec"), ("rec", "mid"), ("mid", "out")]
+    if c.get("branch") and not c.get("loop"):
+        # the layer sits in one branch of a fan-out at a NON-Input node, and the edge list is written branch by branch (so the
+        # hub's outgoing edges are not adjacent in the list): every branch must be typed, whichever is listed first
+        sh = tuple([cin] + list(c["n"]))
+        import math as _m
+        if _m.prod(int(x) for x in sh) <= 4096:
+            r["nodes"]["hub"] = {"k": "Scale", "args": {"scale": np.ones(sh, dtype="float32")}}
+            r["nodes"]["side"] = {"k": "Threshold", "args": {"threshold": np.ones(sh, dtype="float32")}}
+            r["nodes"]["side_out"] = {"k": "Output", "args": {"output_type": None}}
+            main, side = [("hub", "mid"), ("mid", "out")], [("hub", "side"), ("side", "side_out")]
+            r["edges"] = [("in", "hub")] + (main + side if c["branch"] == 1 else side + main)
     if c.get("reassign") and c["kind"] == "infer_conv":
         # the convolution is first built around a weight with ANOTHER kernel size and then given its real weight (a field
         # assignment, e.g. after loading a checkpoint); inference must use the weight the node has when it runs
